@@ -629,6 +629,29 @@ func c18R2(c *Ctx) {
 			}
 		})
 	}
+	// any other method that moves the cursor: wherever it puts it, an item is there
+	for name, fn := range ms {
+		if name == "MoveUp" || name == "MoveDown" || name == "MoveToCenter" || len(fn.Blocks) == 0 {
+			continue
+		}
+		fname := FuncName(fn)
+		eachReturnPath(fn, func(ret *ssa.Return, pf pathFacts, k int) {
+			e := effectOnPath(P, fn, pf, ret)
+			containsHyps(e.lc, fn, pf)
+			e.lc.useFacts()
+			if e.lc.infeasible() {
+				return
+			}
+			v, moved := e.stored["index"]
+			if !moved {
+				return
+			}
+			nv := e.lc.num(v)
+			inB := e.lc.nonNeg(lcGE(up.add(nv, -1), 1)) && e.lc.nonNeg(lcGE(nv.add(lo, -1), 1))
+			c.check(inB && len(e.readAfter) == 0, fname+"/move", P.InstrPos(ret), fname, "the cursor is put on a position known to be within the bounds (path through lines "+pathLines(P, pf)+")",
+				"the cursor is moved to "+nv.String()+", which is not known to lie strictly between lowerBound and upperBound (path through lines "+pathLines(P, pf)+"): on a feed that has no item there the selected position is empty")
+		})
+	}
 	c18NoForeignWrites(c, "servitor/feed", "Feed")
 }
 
